@@ -454,6 +454,11 @@ class Context:
         :param event: The network information of the remote Supvisors instance.
         :return: None.
         """
+        if not event:
+            # the network information could not be retrieved from the remote Supvisors instance
+            # the remote Supvisors instance is likely starting, restarting or shutting down
+            self.logger.warn('Context.on_identification_event: failed to get the network information')
+            return
         # only accepted if later than CHECKING date
         identifier, timestamp = event['identifier'], event['now_monotonic']
         status: SupvisorsInstanceStatus = self.instances[identifier]
